@@ -23,7 +23,7 @@ def materialize(spec):
 
 
 ADVERSARIAL = ["0101013c5a", "01010101010101010101010101010101" + "3c5a", "3c5a", "01", "ff", "00", "0101013c5a000200",
-               "0101013c5aff0200", "0101013c5a0010", "e5", "ff0200"]
+               "0101013c5aff0200", "0101013c5a0010", "e5", "ff0200", "efbbbf", "efbbbf31302041", "fffe3100", "0d0a", "1a", "20"]
 SIZES = [0, 1, 2, 3, 13, 14, 127, 128, 252, 253, 254, 255, 256, 257, 507, 508, 509, 510, 761, 762, 763, 1016, 1270]
 
 
@@ -53,6 +53,9 @@ EXTS = ["bas", "BAS", "Bas", "bas,a", "BAS,A", "bAs,A", "csv", "CSV", "bin", "tx
 def gen_name(rng, maxlen=8):
     n = rng.choice([1, 2, 3, 5, 7, 8, 8]) if maxlen == 8 else rng.randint(1, maxlen)
     s = "".join(rng.choice(NAME_CHARS) for _ in range(n))
+    if rng.random() < 0.06:
+        # legal 8.3 characters that mean something to a command-line parser or a shell when they come first ('-' excepted: argparse owns it)
+        s = rng.choice("@+=~#%&!^{}[]()$;'") + s[1:]
     return ("X" + s[1:]) if s.startswith("-") else s  # a leading '-' would be an option for argparse
 
 
